@@ -1014,6 +1014,14 @@ func cvbC11(c *ctx) {
 			dbd(c, tt, []int{7, 1, 30, 2, 500}, rb, dcfg{}, false, true)
 			dbd(c, []byte(t), []int{5, 40, 3}, rb, dcfg{}, true, true)
 			dbd(c, tt, randSizes(c), rb, dialCfgs[1], true, true)
+			// bare-LF line ends (also only for the blank line), frames whose payload contains CR LF CR LF
+			lf := strings.ReplaceAll(t, "\r\n", "\n")
+			crlfFrames := "\x81\x06a\r\n\r\nb\x81\x02\n\n"
+			dbd(c, []byte(lf+crlfFrames), nil, rb, dcfg{}, true, true)
+			dbd(c, []byte(lf+crlfFrames), []int{11, 2, 300}, rb, dcfg{}, false, true)
+			mixed := strings.TrimSuffix(lf, "\n\n") + "\n\r\n"
+			dbd(c, []byte(mixed+crlfFrames), nil, rb, dcfg{}, true, true)
+			dbd(c, []byte(t+crlfFrames), nil, rb, dialCfgs[1], true, true)
 		}
 	}
 }
